@@ -151,6 +151,13 @@ func (c *vfConn) Close() error {
 	})
 	return nil
 }
+// peerClosed reports whether the other end has closed the connection.
+func (c *vfConn) peerClosed() bool {
+	c.in.mu.Lock()
+	defer c.in.mu.Unlock()
+	return c.in.wclosed
+}
+
 func (c *vfConn) LocalAddr() net.Addr                { return c.local }
 func (c *vfConn) RemoteAddr() net.Addr               { return c.remote }
 func (c *vfConn) SetDeadline(t time.Time) error      { c.in.setDeadline(t); return nil }
